@@ -325,10 +325,16 @@ def get_additional_structure_methods(
     )
     shallow_clone = f"    def shallow_clone_with_overrides(\n{params_with_self}{kw_opt}\n{INDENT}): ..."
 
+    # a keyword named like a parameter of the classmethods themselves is bound to that parameter
+    classmethod_params = [
+        f"{k}: {v}"
+        for k, v in ordered_args_with_none.items()
+        if k not in ("cls", "source_object", "ignore_props")
+    ]
     params_with_cls = f",\n{INDENT * 2}".join(
         [f"{INDENT}cls", "source_object: Any", "*"]
         + ["ignore_props: Iterable[str] = None"]
-        + params
+        + classmethod_params
     )
 
     from_other_class = f"\n{INDENT}".join(
@@ -342,7 +348,7 @@ def get_additional_structure_methods(
     params_with_cls_none_default = f",\n{INDENT * 2}".join(
         [f"{INDENT}cls", "source_object: Any = None", "*"]
         + ["ignore_props: Iterable[str] = None"]
-        + params
+        + classmethod_params
     )
     from_trusted_data = f"\n{INDENT}".join(
         [
